@@ -49,7 +49,7 @@ CLAIMED = {
     design='6 C10'),
  'C12': dict(
     text='Theorems (Finder level): find_one is the head of find, exists is non-emptiness (guard: no empty-string entry; the edge is proved as a _refuted example), as_sid=False strings are the strings of the as_sid=True results; Sid level, over a data set materialised as a tree and for the levels served by the path finder: exists() is membership, children() / siblings() are exactly the members below / beside the Sid, what exists has an existing parent, a leaf has no children (decidable guards, evaluated on the live configuration on every run). Differential run + oracle on FindInList universes, and histories over real trees in one process (exists / children / siblings asked before and after creations).',
-    note=TB + 'Levels served by configured constants (project, type, assettype, state in the demo) are correspondence + oracle only.',
+    note=TB + 'Levels served by configured constants (project, type, assettype, state in the demo): existence and children are by configuration for every file system (theorems C12_constants_exists / C12_constants_children), compared with the implementation by correspondence.',
     technique='Coq proof + correspondence',
     design='6 C12'),
  'C13': dict(
@@ -74,7 +74,7 @@ CLAIMED = {
     design='6 C06'),
  'C11': dict(
     text='Theorems over the generic finder model: every finder is the same find / do_find / sorted_search over its own star search, so answers depend on the finder only through its candidates (for ">" only through the candidate set); the generic finder over a list is the list finder; junk that resolves to no Sid changes no path-search result and makes none fail; every path-search result resolves from an existing matching path, has the searched type and matches the search; and the equality itself for star searches: for every configuration passing paths_unambiguousb, every data set of naturally typed concrete Sids materialised as a tree in which nothing else resolves to a Sid, and typed searches without ">", the tree search returns exactly the entities of the searched type that glob-match the search, is included in the list search over the same entities and equals it when the searched types cover the matches, with or without junk of three kinds (resolves to nothing / to an unsearched type / fails the field check), which also never changes whether a search fails. Tie: real temporary trees (local + server + list + FindInAll), with and without junk, compared with each other (oracle) and with the file-system model (glob, FindInPaths, FindInConstants, FindInAll).',
-    note=TB + 'Guards of the equality theorem: no path component starts with a dot (necessary: glob does not match hidden names - proved as an example), wildcard on a mapped key only as a whole "*", searches whose type has a path template; ">" searches reduce to the same candidate sets through the congruence theorem and C09. FindInAll / FindInConstants agreement is oracle + correspondence. scandir order, symlinks, permissions, case-insensitive file systems are not modelled.',
+    note=TB + 'Guards of the equality theorem: no path component starts with a dot (necessary: glob does not match hidden names - proved as an example), wildcard on a mapped key only as a whole "*", searches whose type has a path template; ">" searches reduce to the same candidate sets through the congruence theorem and C09. What FindInConstants answers is characterised by theorem (C11_constants_star, C11_constants_over_tree); FindInAll across several finders is oracle + correspondence. scandir order, symlinks, permissions, case-insensitive file systems are not modelled.',
     technique='Coq proof (path pattern globs the path of every matching entity + round trip -> tree search = list search; junk invariance) + finder-agreement oracle on real trees + correspondence',
     design='6 C11'),
  'C15': dict(
